@@ -21,10 +21,20 @@ def every(dnf, pred):
 
 
 def process_side(facts):
+    """(process_side, the body that handles one element of the batch): the closure of the iterator chain, or process_side itself when
+    the batch is walked with a `for` loop"""
     ps = facts.method(BSR, 'process_side')
-    cl = [g for g in facts.closures_of(ps) if any((t['callee'].get('path') or '').endswith('Vec::<T, A>::push') for _, t in g.calls())]
+    def pushes_mapped(g):
+        sy = q.sym(facts, g)
+        for _, t in g.calls():
+            if (t['callee'].get('path') or '').endswith('Vec::<T, A>::push') and len(t['args']) > 1:
+                x = strip(sy.operand(t['args'][1]))
+                if x and x[0] == 'call' and x[1].endswith('StreamElement::<Out>::map'):
+                    return True
+        return False
+    cl = [g for g in facts.family(ps) if pushes_mapped(g)]
     if not cl:
-        raise AnchorMissing('process_side has no closure that pushes elements')
+        raise AnchorMissing('process_side: no body pushes the wrapped element (`item.map(wrap)`)')
     return ps, cl[0]
 
 
@@ -42,26 +52,35 @@ def cache_content(ctx):
     facts = ctx.facts
     ps, g = process_side(facts)
     sym = q.sym(facts, g)
-    pushes = [(bi, t) for bi, t in g.calls() if (t['callee'].get('path') or '').endswith('Vec::<T, A>::push')]
+    pushes = [(bi, t) for bi, t in g.calls() if (t['callee'].get('path') or '').endswith('Vec::<T, A>::push') and len(t['args']) > 1]
     item_push = end_push = None
+    item_s = None
     for bi, t in pushes:
-        v = render(strip(sym.operand(t['args'][1])))
-        if 'map(item' in v:
+        term = strip(sym.operand(t['args'][1]))
+        v = render(term)
+        if term[0] == 'call' and term[1].endswith('StreamElement::<Out>::map') and term[2]:
             item_push = (bi, t)
+            item_s = render(strip(term[2][0]))      # the element of the batch being handled (receiver of `.map(wrap)`)
         elif 'StreamElement::Item(' in v and 'end' in v:
             end_push = (bi, t)
     if not item_push or not end_push:
-        raise AnchorMissing('process_side closure: cannot identify the push of the wrapped item and of the end marker')
+        raise AnchorMissing('process_side: cannot identify the push of the wrapped item and of the end marker')
+
+    def on_item(a):
+        return a[0] in ('is', 'isnot', 'isin') and a[1] == item_s
+
+    def loop_atom(a):
+        return a[0] in ('is', 'isnot', 'isin') and 'Iterator::next' in str(a[1]) and not on_item(a)
     dnf = q.cond_of_block(facts, g, item_push[0])
-    ctx.inst('process_side|push(item.map(wrap))', {'at': item_push[1]['at'], 'conditions': show_dnf(dnf)})
+    ctx.inst('process_side|push(item.map(wrap))', {'body': g.path, 'element': item_s[:80], 'at': item_push[1]['at'], 'conditions': show_dnf(dnf)})
     for c in dnf:
-        term = any(a[0] == 'is' and a[1] == 'item' and a[2] == 'Terminate' for a in c)
+        term = any(a[0] == 'is' and a[1] == item_s and a[2] == 'Terminate' for a in c)
         if term and not has(c, 'bool', 'side.cached', False):
             ctx.viol('%s|terminate-cached' % ps.path, item_push[1]['at'],
                      'process_side can put Terminate into the batch of a cached side (conditions: %s): the replayed cache would end the '
                      'loop after its first round' % show_dnf([c]), None)
         if not term:
-            extra = [a for a in c if not (a[0] in ('is', 'isnot', 'isin') and a[1] == 'item')]
+            extra = [a for a in c if not on_item(a) and not loop_atom(a)]
             if extra:
                 ctx.viol('%s|conditional-forward' % ps.path, item_push[1]['at'],
                          'process_side forwards a non-Terminate element only under %s' % show_dnf([frozenset(extra)]), None)
@@ -79,7 +98,9 @@ def cache_content(ctx):
                  '(conditions: %s)' % show_dnf(dnf), None)
     if not g.dominates(end_push[0], item_push[0]) and end_push[0] not in g.reachable_from(0, avoid=[item_push[0]]):
         pass
-    if item_push[0] in g.reachable_from(0, avoid=[]) and end_push[0] in g.reachable_from(item_push[0]):
+    # "after" within the handling of one element: do not go round the loop that fetches the next element
+    heads = [bi for bi, t in g.calls() if (t['callee'].get('path') or '') == 'std::iter::Iterator::next']
+    if item_push[0] in g.reachable_from(0, avoid=[]) and end_push[0] in g.reachable_from(item_push[0], avoid=heads):
         ctx.viol('%s|end-marker-order' % ps.path, end_push[1]['at'],
                  'the end-of-side marker can be pushed after the FlushAndRestart it belongs to', None)
     # counters: decrement by one on the matching variant only
